@@ -5,4 +5,5 @@ spec("C02",
      level_text="(filled below)",
      level_note="(filled below)",
      partial=[],
+     extra_vo=["model/Schemes.v"],
      design_ref="§5 C02")
